@@ -32,6 +32,10 @@ OPT_HEADERS = [(0x32c, rc.enc_nni(256)), (0x330, b'\x07'), (0x334, rc.enc_tlv(0x
 
 def header_set(rng):
     hs = [h for h in OPT_HEADERS if rng.random() < 0.3]
+    if rng.random() < 0.25:
+        # the same UNKNOWN header (a field of a newer protocol revision, repeatable for all this library knows) twice / three times
+        t_ = rng.choice([0x3E8, 0x3EC, 0x0F01, 0x0330 + 0x60])
+        hs += [(t_, bytes([j])) for j in range(rng.choice([2, 2, 3]))]
     hs.sort(key=lambda x: x[0])
     return hs
 
